@@ -1,6 +1,178 @@
-//! C09 harness commands (stub).
-use std::io::Write;
+//! C09 harness: runs the real `report::process` on a ledger (FakeFileSystem) plus a price database (a real
+//! scratch file under /verif/work) and evaluates `Ledger::eval("1 A", {date, exchange: B})` for all requested
+//! pairs and dates.
+//!
+//! case  : `<id> dates=((d Y M D) ...) comms=(A B ...) pdb=(<echoed>) db=<enc text|~> ledger=<enc text>`
+//! output: `<id> tree=(...) pdb=(...) result=<ok|(...)> q=(((d Y M D) A B (ok (c n m s) ...)|(err Kind)) ...)`
+use std::io::{BufRead, Write};
+use std::path::PathBuf;
+use std::sync::atomic::{AtomicUsize, Ordering};
 
-pub fn run(_args: &[String], _out: &mut dyn Write) -> i32 {
+use bumpalo::Bump;
+use okane_core::report::{self, query, ReportContext};
+
+use crate::proc;
+use crate::sx::{self, enc};
+
+/// splits a protocol line at blanks outside parentheses; returns (id, [(key, value)])
+pub fn split_fields(line: &str) -> (String, Vec<(String, String)>) {
+    let mut parts: Vec<String> = Vec::new();
+    let mut cur = String::new();
+    let mut depth = 0i32;
+    for c in line.chars() {
+        match c {
+            '(' => {
+                depth += 1;
+                cur.push(c);
+            }
+            ')' => {
+                depth -= 1;
+                cur.push(c);
+            }
+            ' ' if depth == 0 => {
+                if !cur.is_empty() {
+                    parts.push(std::mem::take(&mut cur));
+                }
+            }
+            _ => cur.push(c),
+        }
+    }
+    if !cur.is_empty() {
+        parts.push(cur);
+    }
+    let mut it = parts.into_iter();
+    let id = it.next().unwrap_or_default();
+    let fields = it
+        .filter_map(|p| p.split_once('=').map(|(k, v)| (k.to_string(), v.to_string())))
+        .collect();
+    (id, fields)
+}
+
+pub fn field<'a>(fs: &'a [(String, String)], k: &str) -> Option<&'a str> {
+    fs.iter().find(|(a, _)| a == k).map(|(_, v)| v.as_str())
+}
+
+/// top-level elements of a parenthesised list `(a (b c) d)` -> ["a", "(b c)", "d"]
+pub fn list_items(s: &str) -> Vec<String> {
+    let s = s.trim();
+    let inner = s.strip_prefix('(').and_then(|x| x.strip_suffix(')')).unwrap_or(s);
+    let mut out = Vec::new();
+    let mut cur = String::new();
+    let mut depth = 0;
+    for c in inner.chars() {
+        match c {
+            '(' => {
+                depth += 1;
+                cur.push(c);
+            }
+            ')' => {
+                depth -= 1;
+                cur.push(c);
+            }
+            ' ' if depth == 0 => {
+                if !cur.is_empty() {
+                    out.push(std::mem::take(&mut cur));
+                }
+            }
+            _ => cur.push(c),
+        }
+    }
+    if !cur.is_empty() {
+        out.push(cur);
+    }
+    out
+}
+
+/// `(d Y M D)` -> NaiveDate
+pub fn parse_date(s: &str) -> Option<chrono::NaiveDate> {
+    let it = list_items(s);
+    if it.len() != 4 || it[0] != "d" {
+        return None;
+    }
+    chrono::NaiveDate::from_ymd_opt(it[1].parse().ok()?, it[2].parse().ok()?, it[3].parse().ok()?)
+}
+
+static COUNTER: AtomicUsize = AtomicUsize::new(0);
+
+/// writes the price database of a case to a scratch file under /verif/work; returns its path
+pub fn write_db(sub: &str, text: &str) -> PathBuf {
+    let dir = PathBuf::from("/verif/work").join(sub).join("db");
+    std::fs::create_dir_all(&dir).unwrap();
+    let n = COUNTER.fetch_add(1, Ordering::SeqCst);
+    let p = dir.join(format!("{}-{}.db", std::process::id(), n));
+    std::fs::write(&p, text).unwrap();
+    p
+}
+
+pub fn query_err_kind(e: &query::QueryError) -> String {
+    let d = format!("{:?}", e);
+    d.split(['(', ' ', '{']).next().unwrap_or("?").to_string()
+}
+
+pub fn eval_sx<'ctx>(ledger: &mut query::Ledger<'ctx>, ctx: &ReportContext<'ctx>, expr: &str, date: chrono::NaiveDate, exchange: Option<&str>) -> String {
+    match ledger.eval(ctx, expr, &query::EvalContext { date, exchange: exchange.map(|s| s.to_string()) }) {
+        Ok(a) => format!("(ok {})", proc::amount_sx(&a)),
+        Err(e) => format!("(err {})", query_err_kind(&e)),
+    }
+}
+
+pub fn run(_args: &[String], out: &mut dyn Write) -> i32 {
+    let stdin = std::io::stdin();
+    for line in stdin.lock().lines() {
+        let line = line.unwrap();
+        let (id, fs) = split_fields(&line);
+        let (Some(dates), Some(comms), Some(db), Some(ledger)) =
+            (field(&fs, "dates"), field(&fs, "comms"), field(&fs, "db"), field(&fs, "ledger"))
+        else {
+            writeln!(out, "{} bad-case", id).unwrap();
+            continue;
+        };
+        let pdb = field(&fs, "pdb").unwrap_or("()").to_string();
+        let dates: Vec<chrono::NaiveDate> = list_items(dates).iter().filter_map(|d| parse_date(d)).collect();
+        let comms: Vec<String> = list_items(comms).iter().filter_map(|c| sx::dec(c)).collect();
+        let db_text = sx::dec(db).unwrap_or_default();
+        let text = sx::dec(ledger).unwrap_or_default();
+        let files: proc::Files = vec![("/r/main.ledger".to_string(), text)];
+        let root = "/r/main.ledger";
+        let tree = match proc::load_entries(&files, root) {
+            Ok(l) => l.entries.iter().map(|e| e.3.clone()).collect::<Vec<_>>().join(" "),
+            Err(k) => {
+                writeln!(out, "{} tree=() pdb={} result=(loaderr {}) q=()", id, pdb, k).unwrap();
+                continue;
+            }
+        };
+        let db_path = if db_text.is_empty() { None } else { Some(write_db("C09", &db_text)) };
+        let dbp = db_path.clone();
+        let files2 = files.clone();
+        let r = sx::catch(move || {
+            let arena = Bump::new();
+            let mut ctx = ReportContext::new(&arena);
+            let opts = report::ProcessOptions { price_db_path: dbp };
+            let processed = report::process(&mut ctx, proc::fake_loader(&files2, root), &opts);
+            let ret = match processed {
+                Err(e) => (format!("(processerr {})", enc(&proc::render_chain(&e).lines().next().unwrap_or("").to_string())), String::new()),
+                Ok(mut ledger) => {
+                    let mut qs = Vec::new();
+                    for d in &dates {
+                        for a in &comms {
+                            for b in &comms {
+                                let res = eval_sx(&mut ledger, &ctx, &format!("1 {}", a), *d, Some(b));
+                                qs.push(format!("({} {} {} {})", crate::tree::date(*d), enc(a), enc(b), res));
+                            }
+                        }
+                    }
+                    ("ok".to_string(), qs.join(" "))
+                }
+            };
+            ret
+        });
+        if let Some(p) = db_path {
+            let _ = std::fs::remove_file(p);
+        }
+        match r {
+            Ok((res, qs)) => writeln!(out, "{} tree=({}) pdb={} result={} q=({})", id, tree, pdb, res, qs).unwrap(),
+            Err(msg) => writeln!(out, "{} tree=({}) pdb={} result=(panic {}) q=()", id, tree, pdb, enc(&msg)).unwrap(),
+        }
+    }
     0
 }
